@@ -349,8 +349,8 @@ impl<'a, 'tcx> BodyCx<'a, 'tcx> {
                 if matches!(dk, DefKind::Const { .. } | DefKind::AssocConst { .. }) {
                     let _ = write!(o, ",\"named\":{}", esc(&self.cx.path(u.def)));
                 }
-            } else {
-                o.push_str(",\"promoted\":true");
+            } else if let Some(pi) = u.promoted {
+                let _ = write!(o, ",\"promoted\":{},\"promoted_of\":{}", pi.as_u32(), esc(&self.cx.id(u.def)));
             }
         }
         o.push('}');
@@ -837,6 +837,42 @@ fn dump_body<'tcx>(cx: &Cx<'tcx>, ldid: LocalDefId, out: &mut String, stats: &mu
     let _ = write!(o, ",\"blocks\":{}}}\n", jlist(&blocks));
     out.push_str(&o);
     stats.bodies += 1;
+    // promoted constants of this body (needed to see `&Role::Server`, `1200..=65527`, `&State::Inflight` ...)
+    if kind != "const" {
+        let proms = tcx.promoted_mir(did);
+        for (pi, pb) in proms.iter_enumerated() {
+            let pcx = BodyCx { cx, body: pb, env, file: file.clone() };
+            let mut o = String::with_capacity(512);
+            let _ = write!(
+                o,
+                "{{\"k\":\"body\",\"id\":{},\"name\":{},\"kind\":\"promoted\",\"file\":{},\"line\":{},\"root\":{},\"parent\":{},\"argc\":0",
+                esc(&format!("{}::promoted[{}]", cx.id(did), pi.as_u32())),
+                esc(&format!("{}::promoted[{}]", cx.path(did), pi.as_u32())),
+                esc(&file),
+                line,
+                esc(&cx.id(tcx.typeck_root_def_id(did))),
+                esc(&cx.id(did))
+            );
+            let mut locals = Vec::new();
+            for ld in pb.local_decls.iter() {
+                locals.push(format!("{{\"ty\":{}}}", esc(&cx.ty(ld.ty))));
+            }
+            let _ = write!(o, ",\"locals\":{}", jlist(&locals));
+            let mut blocks = Vec::new();
+            for (_bb, data) in pb.basic_blocks.iter_enumerated() {
+                let mut ss = Vec::new();
+                for st in data.statements.iter() {
+                    if let Some(j) = pcx.statement(st) {
+                        ss.push(j);
+                    }
+                }
+                let t = pcx.terminator(data.terminator());
+                blocks.push(format!("{{\"s\":{},\"term\":{}}}", jlist(&ss), t));
+            }
+            let _ = write!(o, ",\"blocks\":{}}}\n", jlist(&blocks));
+            out.push_str(&o);
+        }
+    }
 }
 
 #[derive(Default)]
